@@ -246,7 +246,34 @@ class _Enumerator:
 
     def _stmt(self, stmt: ast.stmt, prefix: list[Step]):
         self._tick()
-        if isinstance(stmt, ast.Return):
+        if isinstance(stmt, ast.Return) and isinstance(stmt.value, ast.IfExp):
+            # ``return a if c else b`` is the two-armed ``if c: return a`` / ``else: return b``
+            e = stmt.value
+            synth = ast.copy_location(
+                ast.If(
+                    test=e.test,
+                    body=[ast.copy_location(ast.Return(value=e.body), stmt)],
+                    orelse=[ast.copy_location(ast.Return(value=e.orelse), stmt)],
+                ),
+                stmt,
+            )
+            yield from self._if(synth, prefix)
+        elif (
+            isinstance(stmt, ast.Assign)
+            and len(stmt.targets) == 1
+            and isinstance(stmt.value, ast.IfExp)
+        ):
+            e = stmt.value
+            synth = ast.copy_location(
+                ast.If(
+                    test=e.test,
+                    body=[ast.copy_location(ast.Assign(targets=stmt.targets, value=e.body), stmt)],
+                    orelse=[ast.copy_location(ast.Assign(targets=stmt.targets, value=e.orelse), stmt)],
+                ),
+                stmt,
+            )
+            yield from self._if(synth, prefix)
+        elif isinstance(stmt, ast.Return):
             yield prefix + [Step("stmt", stmt)], "return", stmt
         elif isinstance(stmt, ast.Raise):
             yield prefix + [Step("stmt", stmt)], "raise", stmt
